@@ -13,6 +13,7 @@ LEVELS = {
     "C03": "proof",
     "C08": "other",
     "C11": "other",
+    "C20": "other",
 }
 EXPLAIN = {}
 TRUSTED = [
